@@ -12,7 +12,10 @@ import (
 func (p *Pipeline) buildEngB(variant string) (string, []string) {
 	p.timed("instrument", func() {
 		st, err := Instrument(instrOpts{Dir: p.Src, Patterns: mapSeamPkgs, GoBin: "go", YieldFile: func(rel string) bool {
-			return strings.HasSuffix(rel, ".pulsar.go") || rel == "runtime/runtime.go"
+			if strings.HasSuffix(rel, "_test.go") {
+				return false
+			}
+			return strings.HasSuffix(rel, ".pulsar.go") || strings.HasPrefix(rel, "runtime/") || strings.HasPrefix(rel, "anyutil/")
 		}})
 		if err != nil {
 			fail("instrumenter: %v", err)
@@ -136,7 +139,7 @@ func fillTaskEvidence(scenario string, ev *evidence) {
 		cov["rule"] = "one evaluation = one simulation: 2-6 reader tasks (real goroutines, one running at a time, released and parked through a raw-syscall pipe baton the race detector cannot see) each running 1-6 read-only operations on ONE shared generated message, interleaved at statement-granularity yield points by a tape-drawn (task, quantum) schedule, with tape-drawn map iteration order per operation; oracles: race detector, struct snapshot after every scheduling step, result == sequential reader on a private copy; distinct_nontrivial counts simulations (each its own seed) with at least 4 preemptive context switches; distinct interleavings per variant are counted by the hash of the (task, yield-site) sequence"
 		cov["real_vs_stub"] = map[string]string{
 			"real":  "generated code and runtime package (with inserted yield calls and the range rewrite), protobuf-go v1.34.0 (proto, protojson, prototext, anypb, impl), the Go race detector",
-			"seam":  "scheduling: simhook.Yield before every statement of the generated files and runtime/runtime.go; map order: simhook.Iter",
+			"seam":  "scheduling: simhook.Yield before every statement of the generated files and of the packages runtime/ and anyutil/; map order: simhook.Iter",
 			"stubs": "none",
 		}
 		ev.Assumptions = []string{
